@@ -65,3 +65,8 @@ claim('C08', 'model evaluation of the four readers on model files (token lines w
       'masses by type, section offsets, column count, style comment, and refuses each incomplete file with FileFormatError; atom_style resolution; image flags are re-applied per atom id as flags·vects for a file whose atom lines are out of order; '
       'the table reader sorts by id, reshapes in C order, re-applies units / box-relative conversion; the dump-file reader inverts the writer\'s bounding box exactly (orthogonal and tilted, symbolic), reads pp flags (8 settings) and matches columns; '
       'the POSCAR reader applies the scale factor to lattice and Cartesian coordinates, reads the optional symbols line and counts. That parsed decimals equal printed ones is not decided.', 'DESIGN.md §6 C08')
+
+claim('C11', 'evaluation of the ElasticConstants methods on generic symmetric matrices of symbols; exact polynomial / rational identities against the Voigt map, the tensor transformation law, rotation-group invariance per crystal system, the (lambda, mu) definitions of the isotropic moduli and the Voigt/Reuss/Hill formulas',
+      'Decides structural necessary conditions: all 81+81 index placements of the 3x3x3x3 and 9x9 forms, the compliance weights (so that stiffness:compliance is the symmetric identity whenever s = c^-1), setter∘getter identities, '
+      'the transformation law on all 81 entries and a sign-symmetric clean-up, invariance of every crystal-system constructor (all dependent-constant arms) under the generators of its rotation group, all 15 isotropic modulus pairs, '
+      'normalized_as as a fixed point on each system\'s own constants, and the modulus estimates. Positive-definiteness, conditioning of the numerical inverse and tolerance behaviour are not decided.', 'DESIGN.md §6 C11')
